@@ -1,14 +1,38 @@
-import sys, json
+import sys, json, os
 from . import gen
 
+
 def main(argv):
+    if not argv:
+        print('usage: vx gen <unit> | check <Cxx> [--tier quick|thorough] | manifest')
+        return 2
     if argv[0] == 'gen':
         try:
-            path, info = gen.expand(argv[1])
-        except gen.GenError as e:
+            path, info = gen.expand(argv[1], variant=(argv[2] if len(argv) > 2 else None))
+        except (gen.GenError, gen.ScanError) as e:
             print('UNDECIDED (generator):', e)
             return 2
         print(path)
         return 0
-    print('usage: vx gen <unit>')
+    if argv[0] == 'check':
+        from . import check
+        pid = argv[1]
+        tier = os.environ.get('VERIF_TIER', 'quick')
+        if '--tier' in argv:
+            tier = argv[argv.index('--tier') + 1]
+        seed = int(os.environ.get('VERIF_SEED', '0') or 0)
+        return check.check(pid, tier, seed)
+    if argv[0] == 'manifest':
+        from . import manifest
+        manifest.build()
+        print('MANIFEST.json written')
+        return 0
+    if argv[0] == 'setup':
+        import shutil
+        for d in ('work', 'evidence', 'replays'):
+            os.makedirs(os.path.join(gen.VERIF, d), exist_ok=True)
+        ok = shutil.which('verus') is not None
+        print('verus:', shutil.which('verus'))
+        return 0 if ok else 2
+    print('unknown command', argv[0])
     return 2
